@@ -650,7 +650,7 @@ func c14ErrorPaths(c *Case) {
 func init() {
 	register(&Prop{
 		ID: "C14", Level: "exploration",
-		Rule: "each case is a (program, inputs, selectors) triple from the pools of C02/C07/C09 plus failing programs, malformed inputs, JSONL, root-modifying programs and program texts with raw CR LF / tab / control bytes inside literals, run in one cell of the 54-cell configuration matrix {inline, -f} x {stdin, 1 file, 2-3 files} x {0, 1, 2 -r} x {no -o, -o -, -o FILE} (cells are visited round-robin by case index). Relations checked on the real binary: (R1) stdout, -o bytes and exit class equal the library's result on the same tree (files and selectors in the same order; -o with several inputs refused); in a third of the one-file cells -o FILE names the input file itself, in a fifth of the file cells the first file operand is repeated at the end (also spelled ./file); (R2) -f FILE == inline; (R3) stdin == the same bytes in a file for programs that do not mention $file; (R4) the bytes `-o -` prints after the program's own output are exactly what `-o FILE` writes; (R5) `-r E` == `BEGINFILE { $ = E }` for side-effect-free selectors (members present / missing / out of range, method calls, literals) and programs that modify $ only in pattern rules, including what -o writes, also over several files and several values per input; (R6) two selectors print what each prints alone, one after the other, and -o writes what the last alone writes; (R7) for programs without state across values, a run over several files / several values per input / several selectors prints exactly the concatenation of the runs value by value (each processed once, in order). Enumerated: 16 error paths and orderings (missing program / input files, directory as input, unwritable -o, -o with two files, -o without any value, file and selector order, error after output) strace-injected EIO, and 9 runs with standard output on /dev/full (a run that has something to print fails with a diagnostic, one that prints nothing succeeds). 8 fixed selector / program pairs that mention functions, globals, $file or assign names, run as `-r E` and as `BEGINFILE { $ = E }` (6 are witnesses of known finding K-SELSCOPE, 2 are controls). Non-trivial = the case produces output or an -o document; distinct by cell+program+inputs+selectors.",
+		Rule: "each case is a (program, inputs, selectors) triple from the pools of C02/C07/C09 plus failing programs, malformed inputs, JSONL, root-modifying programs and program texts with raw CR LF / tab / control bytes inside literals, run in one cell of the 54-cell configuration matrix {inline, -f} x {stdin, 1 file, 2-3 files} x {0, 1, 2 -r} x {no -o, -o -, -o FILE} (cells are visited round-robin by case index). Relations checked on the real binary: (R1) stdout, -o bytes and exit class equal the library's result on the same tree (files and selectors in the same order; -o with several inputs refused); in a third of the one-file cells -o FILE names the input file itself, in a fifth of the file cells the first file operand is repeated at the end (also spelled ./file); (R2) -f FILE == inline; (R3) stdin == the same bytes in a file for programs that do not mention $file; (R4) the bytes `-o -` prints after the program's own output are exactly what `-o FILE` writes; (R5) `-r E` == `BEGINFILE { $ = E }` for side-effect-free selectors (members present / missing / out of range, method calls, literals) and programs that modify $ only in pattern rules, including what -o writes, also over several files and several values per input; (R6) two selectors print what each prints alone, one after the other, and -o writes what the last alone writes; (R7) for programs without state across values, a run over several files / several values per input / several selectors prints exactly the concatenation of the runs value by value (each processed once, in order). Enumerated: 16 error paths and orderings (missing program / input files, directory as input, unwritable -o, -o with two files, -o without any value, file and selector order, error after output) strace-injected EIO, and 9 runs with standard output on /dev/full (a run that has something to print fails with a diagnostic, one that prints nothing succeeds). 8 fixed selector / program pairs that mention functions, globals, $file or assign names, run as `-r E` and as `BEGINFILE { $ = E }` (6 are witnesses of known finding K-SELSCOPE, 2 are controls). Non-trivial = the case produces output or an -o document; distinct by cell+program+inputs+selectors. 150 files under a limit of 40 open descriptors.",
 		NumCases: func(tier string) int {
 			if tier == "thorough" {
 				return 1 + 54*1000
